@@ -2,6 +2,7 @@ package main
 
 import (
 	"fmt"
+	"go/token"
 	"sort"
 	"strings"
 
@@ -19,16 +20,14 @@ import (
 // schema that reaches it with the wrong length panics the validator — except for the sites of the table below, each of
 // which rests on an invariant another rule (or the code's push/pop discipline) provides, stated next to it.
 var c02IndexAssumed = map[string]string{
-	"validator.VariableValues | slice .path[:len-1]":                          "the element appended at the top of the same iteration is removed; validateVarType restores the path it was given (resetPath) before returning",
-	"rules.init | slice spreadPath[:len-1]":                                   "the spread appended earlier in the same iteration is removed; the recursive call leaves the path as it found it",
-	"rules.init | slice spreadPath[index:len-1]":                              "cycleIndex was recorded as len(spreadPath) when the fragment was entered, and entries are removed in reverse order",
-	"rules | index Definition.Fields[0]":                                      "an input object type defines at least one field (C07: validateDefinition rejects an empty INPUT_OBJECT); the oneOf check reads the first one",
+	"rules | index Definition.Fields[0]": "an input object type defines at least one field (C07: validateDefinition rejects an empty INPUT_OBJECT); the oneOf check reads the first one",
 }
 
 func c02IndexSafety(c *Ctx, r *RuleResult, only map[*ssa.Function]bool) {
 	p := c.P
 	assumedUsed := map[string]bool{}
 	total := 0
+	var sd *stackDisc
 	for _, rel := range []string{"validator", "validator/rules", "ast", "gqlerror", "formatter", ""} {
 		if p.SPkgs[rel] == nil {
 			continue
@@ -63,6 +62,22 @@ func c02IndexSafety(c *Ctx, r *RuleResult, only map[*ssa.Function]bool) {
 			if o.ok {
 				r.OK(site, o.need)
 				continue
+			}
+			if sl := sliceAt(p, rel, o.fn, o.pos); sl != nil {
+				if sd == nil {
+					sd = newStackDisc(p)
+				}
+				if why, ok := sd.provePop(sl); ok {
+					r.OK(site, "decided: "+why)
+					continue
+				}
+				if why, ok := sd.recordedDepthSlice(sl); ok {
+					k := "slice of a push/pop stack from a recorded depth"
+					assumedUsed[k] = true
+					c02IndexAssumed[k] = why
+					r.OK(site, "assumed: "+why)
+					continue
+				}
 			}
 			if key, why := c02AssumedSite(o.fn, o.what); why != "" {
 				assumedUsed[key] = true
@@ -102,6 +117,22 @@ func normIndexWhat(what string) string {
 	return string(out)
 }
 
+// sliceAt: the slice instruction of function fnName at pos.
+func sliceAt(p *Program, rel, fnName string, pos token.Pos) *ssa.Slice {
+	var out *ssa.Slice
+	for _, fn := range p.FuncsIn(rel) {
+		if p.FuncName(fn) != fnName {
+			continue
+		}
+		allInstrs(fn, func(in ssa.Instruction) {
+			if sl, ok := in.(*ssa.Slice); ok && sl.Pos() == pos {
+				out = sl
+			}
+		})
+	}
+	return out
+}
+
 func c02AssumedSite(fn, what string) (string, string) {
 	w := normIndexWhat(what)
 	root := fn
@@ -110,12 +141,6 @@ func c02AssumedSite(fn, what string) (string, string) {
 	}
 	var cands []string
 	switch {
-	case strings.HasPrefix(w, "slice ") && strings.Contains(w, "path[") && strings.HasSuffix(w, "-1]") && strings.Contains(w, "[0:"):
-		cands = append(cands, root+" | slice .path[:len-1]")
-	case strings.HasPrefix(w, "slice ") && strings.HasSuffix(w, "-1]") && strings.Contains(w, "[:"):
-		cands = append(cands, root+" | slice spreadPath[:len-1]")
-	case strings.HasPrefix(w, "slice ") && strings.HasSuffix(w, "-1]"):
-		cands = append(cands, root+" | slice spreadPath[index:len-1]")
 	case strings.HasPrefix(w, "index ") && strings.Contains(w, ".Fields[0]"):
 		if strings.HasPrefix(root, "rules.") {
 			cands = append(cands, "rules | index Definition.Fields[0]")
